@@ -22,8 +22,8 @@ an empty prefix the rendering is the text itself (`render_empty_prefix`).
 namespace Goyang.Props.C20
 open Goyang.Model.Indent
 open Goyang.Spec.Indent (tagged render callerBytesIn atStartAfter)
-open Goyang.Lemmas.Indent (join_write written_write partial_bit render_append atStartAfter_append
-  callerBytesIn_le render_getLast? tagged_append countP_tagged)
+open Goyang.Lemmas.Indent (join_write render_append atStartAfter_append callerBytesIn_le
+  callerBytesIn_min render_getLast? tagged_append countP_tagged write_none_eq write_some_eq)
 
 /-! ### one-shot `indent.String` / `indent.Bytes` -/
 
@@ -57,6 +57,16 @@ example : render [62, 62] true [97, 98, 10, 10, 99, 10] = [62, 62, 97, 98, 10, 6
 example : indent [62] [10, 97] = [62, 10, 62, 97] := by decide
 example : ([97, 98, 10] : Bytes) ≠ [] := by decide
 
+/-- Sanity of the specification itself: the rendering consists of the caller's text, byte for
+byte and in order, plus prefix bytes (tagged `false`) — so "the number of caller bytes among the
+first `k`" is a count of bytes of `s`. -/
+theorem spec_keeps_text (pre : Bytes) (atStart : Bool) (s : Bytes) :
+    ((tagged pre atStart s).filter (·.2)).map (·.1) = s ∧
+    (tagged pre atStart s).map (·.1) = render pre atStart s ∧
+    callerBytesIn pre atStart s (render pre atStart s).length = s.length := by
+  refine ⟨Lemmas.Indent.filter_tagged pre atStart s, rfl, ?_⟩
+  simp [callerBytesIn, render, countP_tagged]
+
 /-! ### one successful `Write` -/
 
 /-- Everything a successful Write does, for every state, prefix and buffer (the empty buffer
@@ -64,26 +74,24 @@ included): the underlying writer is handed, and takes, the rendering of `buf` co
 current line state; the call reports `len(buf)` and no error; afterwards `partial` is true exactly
 when the output so far does not end in a line feed. -/
 theorem write_success (pre : Bytes) (p : Bool) (buf : Bytes) :
-    write pre p buf none =
-      { partial_ := !(atStartAfter (!p) buf), handed := render pre (!p) buf,
-        reached := render pre (!p) buf, n := buf.length, err := false } := by
-  by_cases hb : buf = []
-  · subst hb; simp [write, Lemmas.Indent.render_nil, atStartAfter]
-  · have hj := join_write pre p hb
-    have hp := partial_bit pre (!p) hb
-    simp only [write, List.isEmpty_iff, hb, if_false, hj, hp]
+    (write pre p buf none).reached = render pre (!p) buf ∧
+    (write pre p buf none).handed = (write pre p buf none).reached ∧
+    (write pre p buf none).n = buf.length ∧
+    (write pre p buf none).err = false ∧
+    (write pre p buf none).partial_ = !(atStartAfter (!p) buf) := by
+  simp [write_none_eq]
 
 /-- A successful Write reports the full length of its argument. -/
 theorem write_ok_len (pre : Bytes) (p : Bool) (buf : Bytes) :
     (write pre p buf none).n = buf.length ∧ (write pre p buf none).err = false := by
-  simp [write_success]
+  simp [write_none_eq]
 
 /-- The state bit, read on its own: after a successful Write of a non-empty buffer the writer
 remembers "inside a line" iff the buffer does not end in a line feed. -/
 theorem write_partial_bit (pre : Bytes) (p : Bool) (buf : Bytes) (h : buf ≠ []) :
     (write pre p buf none).partial_ = (buf.getLast? != some NL) := by
   obtain ⟨b, hb⟩ := Lemmas.Indent.getLast?_some h
-  simp [write_success, atStartAfter, hb, Lemmas.Indent.specNL, bne]
+  simp [write_none_eq, atStartAfter, hb, Lemmas.Indent.specNL, bne]
 
 example : write [62, 62] false [97, 10, 98] none =
     { partial_ := true, handed := [62, 62, 97, 10, 62, 62, 98], reached := [62, 62, 97, 10, 62, 62, 98],
@@ -103,7 +111,7 @@ theorem stream_from_state (pre : Bytes) (p : Bool) (chunks : List Bytes) :
   induction chunks generalizing p with
   | nil => simp [writes, Lemmas.Indent.render_nil]
   | cons c cs ih =>
-    simp only [List.map_cons, writes, write_success, ih, Bool.not_not, List.flatten_cons,
+    simp only [List.map_cons, writes, write_none_eq, ih, Bool.not_not, List.flatten_cons,
       render_append]
 
 /-- Text written through a fresh indenting writer in any division into Write calls comes out
@@ -122,26 +130,15 @@ example : indent [62, 62] [97, 98, 10, 10, 99, 10, 100] =
 
 /-! ### a Write that the underlying writer cuts short -/
 
-/-- Everything a failing Write does (`buf` non-empty; the underlying writer takes `k` bytes and
-reports an error): it was handed the full rendering, took its first `k` bytes, and the count
-returned is exactly the number of caller bytes among them — prefix bytes are not counted.
-`k` is unrestricted: beyond the length of what is handed down it behaves as that length. -/
-theorem write_short (pre : Bytes) (p : Bool) (buf : Bytes) (h : buf ≠ []) (k : Nat) :
-    write pre p buf (some k) =
-      { partial_ := !(atStartAfter (!p) buf), handed := render pre (!p) buf,
-        reached := (render pre (!p) buf).take k, n := callerBytesIn pre (!p) buf k, err := true } := by
-  have hj := join_write pre p h
-  have hp := partial_bit pre (!p) h
-  have hw := written_write pre p h (min k (render pre (!p) buf).length)
-  have hlen : (render pre (!p) buf).length = (tagged pre (!p) buf).length := by simp [render]
-  have hc : callerBytesIn pre (!p) buf (min k (render pre (!p) buf).length) = callerBytesIn pre (!p) buf k := by
-    simp only [callerBytesIn, hlen, ← List.take_eq_take_min]
-  simp only [write, List.isEmpty_iff, h, if_false, hj, hp, hw, hc, ← List.take_eq_take_min]
+example : ([97, 10, 98] : Bytes) ≠ [] := by decide
 
-/-- The count returned on a short write is the number of the caller's bytes that reached the
-underlying writer; it is never negative and never more than the argument.  (The model computes
-it over `Int`, as the Go code computes over `int`, with `remain` going below zero when the cut
-falls inside a prefix: non-negativity is proved here, not assumed by the type.) -/
+/-- A Write that the underlying writer cuts short (`buf` non-empty; the underlying writer takes
+`k` bytes of what it is handed and reports an error).  It was handed the full rendering and took
+its first `k` bytes; the count returned is exactly the number of the caller's bytes among them —
+prefix bytes are not counted; it is never negative and never more than the argument; the error is
+passed on.  `k` is unrestricted: beyond the length of what is handed down it behaves as that length.
+(The model computes the count over `Int`, as the Go code computes over `int`, with `remain` going
+below zero when the cut falls inside a prefix: non-negativity is proved here, not assumed by a type.) -/
 theorem write_short_count (pre : Bytes) (p : Bool) (buf : Bytes) (h : buf ≠ []) (k : Nat) :
     (write pre p buf (some k)).handed = render pre (!p) buf ∧
     (write pre p buf (some k)).reached = (render pre (!p) buf).take k ∧
@@ -150,32 +147,35 @@ theorem write_short_count (pre : Bytes) (p : Bool) (buf : Bytes) (h : buf ≠ []
     (write pre p buf (some k)).n = callerBytesIn pre (!p) buf k ∧
     0 ≤ (write pre p buf (some k)).n ∧
     (write pre p buf (some k)).n ≤ buf.length ∧
-    (write pre p buf (some k)).err = true := by
-  have hlen : (render pre (!p) buf).length = (tagged pre (!p) buf).length := by simp [render]
-  have hc : callerBytesIn pre (!p) buf (min k (render pre (!p) buf).length) = callerBytesIn pre (!p) buf k := by
-    simp only [callerBytesIn, hlen, ← List.take_eq_take_min]
+    (write pre p buf (some k)).err = true ∧
+    (write pre p buf (some k)).partial_ = !(atStartAfter (!p) buf) := by
+  have hc := callerBytesIn_min pre (!p) buf k
   have hle := callerBytesIn_le pre (!p) buf k
-  rw [write_short pre p buf h k]
-  refine ⟨rfl, rfl, ?_, rfl, ?_, ?_, rfl⟩
+  rw [write_some_eq pre p h k]
+  refine ⟨rfl, rfl, ?_, rfl, ?_, ?_, rfl, rfl⟩
   · simp only [hc]
   · simp only; omega
   · simp only; omega
 
 /-- An empty Write does nothing at all, whatever the underlying writer would do. -/
 theorem write_empty (pre : Bytes) (p : Bool) (u : Under) :
-    write pre p [] u = { partial_ := p, handed := [], reached := [], n := 0, err := false } := by
+    (write pre p [] u).handed = [] ∧ (write pre p [] u).reached = [] ∧ (write pre p [] u).n = 0 ∧
+    (write pre p [] u).err = false ∧ (write pre p [] u).partial_ = p := by
   simp [write]
 
 /-- A short write anywhere in a stream: after any successful Writes `chunks`, a Write of `buf`
 that is cut after `k` bytes leaves the underlying writer with a prefix of the one-shot rendering
-of the whole text, and returns the number of bytes of `buf` (not of the prefix) inside it. -/
+of the whole text; the failing call returns the number of bytes of `buf` inside that prefix, so
+that all counts returned so far add up to the number of caller bytes that reached the underlying
+writer. -/
 theorem stream_short (pre : Bytes) (chunks : List Bytes) (buf : Bytes) (h : buf ≠ []) (k : Nat) :
     (writes pre false (chunks.map (·, none) ++ [(buf, some k)])).1 =
       (indent pre (chunks.flatten ++ buf)).take ((indent pre chunks.flatten).length + k) ∧
     (writes pre false (chunks.map (·, none) ++ [(buf, some k)])).2 =
       chunks.map (fun c => ((c.length : Int), false)) ++
-        [(((callerBytesIn pre true (chunks.flatten ++ buf) ((indent pre chunks.flatten).length + k)
-            - chunks.flatten.length : Nat) : Int), true)] := by
+        [(((callerBytesIn pre (atStartAfter true chunks.flatten) buf k : Nat) : Int), true)] ∧
+    chunks.flatten.length + callerBytesIn pre (atStartAfter true chunks.flatten) buf k =
+      callerBytesIn pre true (chunks.flatten ++ buf) ((indent pre chunks.flatten).length + k) := by
   have gen : ∀ (p : Bool) (cs : List Bytes),
       writes pre p (cs.map (·, none) ++ [(buf, some k)]) =
         (render pre (!p) cs.flatten ++ (render pre (atStartAfter (!p) cs.flatten) buf).take k,
@@ -183,18 +183,17 @@ theorem stream_short (pre : Bytes) (chunks : List Bytes) (buf : Bytes) (h : buf 
            [(((callerBytesIn pre (atStartAfter (!p) cs.flatten) buf k : Nat) : Int), true)]) := by
     intro p cs
     induction cs generalizing p with
-    | nil => simp [writes, write_short pre p buf h k, Lemmas.Indent.render_nil, atStartAfter]
+    | nil => simp [writes, write_some_eq pre p h k, Lemmas.Indent.render_nil, atStartAfter]
     | cons c cs ih =>
-      simp only [List.map_cons, List.cons_append, writes, write_success, ih, Bool.not_not,
+      simp only [List.map_cons, List.cons_append, writes, write_none_eq, ih, Bool.not_not,
         List.flatten_cons, render_append, atStartAfter_append, List.append_assoc]
   rw [gen false chunks]
-  simp only [oneshot_spec, Bool.not_false, render_append]
-  constructor
-  · rw [List.take_append, List.take_of_length_le (by omega)]; simp
+  refine ⟨?_, rfl, ?_⟩
+  · simp only [oneshot_spec, Bool.not_false, render_append, List.take_length_add_append]
   · have hlen : (render pre true chunks.flatten).length = (tagged pre true chunks.flatten).length := by
       simp [render]
-    simp only [callerBytesIn, tagged_append, hlen, List.take_append, List.countP_append]
-    simp [countP_tagged]
+    simp only [oneshot_spec, callerBytesIn, tagged_append, hlen, List.take_length_add_append,
+      List.countP_append, countP_tagged]
 
 example : writes [62, 62] false [([97, 98], none), ([99, 100, 10, 101, 102], some 1)] =
     ([62, 62, 97, 98, 99], [(2, false), (1, true)]) := by decide
